@@ -19,7 +19,7 @@ var (
 type Profile struct {
 	Name                                                               string
 	Upload, Resumable, GetMeta, GetMedia, Patch, Delete, Compose, Copy int
-	List, ListBad, MkBucket, RmBucket, Reopen, GetBucket               int
+	List, ListBad, MkBucket, RmBucket, Reopen, GetBucket, Plant        int
 	CondPct                                                            int // chance (%) that a mutating op carries conditions
 	Names                                                              []string
 	MinOps, MaxOps                                                     int
@@ -31,6 +31,7 @@ var Profiles = map[string]Profile{
 	"c04":    {Name: "c04", Upload: 30, Resumable: 10, Patch: 20, Delete: 15, Compose: 15, GetMeta: 5, CondPct: 85, Names: SafeNames[:4], MinOps: 8, MaxOps: 30, ReadBack: true},
 	"c09":    {Name: "c09", Upload: 30, Resumable: 8, Patch: 12, Delete: 10, Compose: 6, Copy: 8, GetMeta: 5, GetMedia: 5, List: 8, MkBucket: 3, RmBucket: 2, GetBucket: 2, CondPct: 20, Names: SafeNames, MinOps: 8, MaxOps: 40, ReadBack: true},
 	"c09r":   {Name: "c09r", Upload: 30, Resumable: 8, Patch: 12, Delete: 10, Compose: 6, Copy: 8, GetMeta: 5, GetMedia: 5, List: 8, MkBucket: 3, RmBucket: 2, Reopen: 10, GetBucket: 2, CondPct: 20, Names: SafeNames, MinOps: 8, MaxOps: 40, ReadBack: true},
+	"c09p":   {Name: "c09p", Upload: 25, Patch: 12, Delete: 8, Compose: 6, Copy: 8, GetMeta: 10, GetMedia: 10, List: 8, Reopen: 8, Plant: 15, CondPct: 15, Names: SafeNames, MinOps: 8, MaxOps: 40, ReadBack: true},
 	"c10":    {Name: "c10", Upload: 35, Resumable: 5, Patch: 30, Delete: 8, Compose: 6, Copy: 8, GetMeta: 4, GetMedia: 4, List: 4, CondPct: 25, Names: SafeNames[:5], MinOps: 10, MaxOps: 60, ReadBack: true},
 	"c11":    {Name: "c11", Upload: 40, Delete: 8, List: 45, ListBad: 4, RmBucket: 1, CondPct: 0, Names: SafeNames, MinOps: 10, MaxOps: 40},
 	"c11mem": {Name: "c11mem", Upload: 40, Delete: 8, List: 45, ListBad: 4, CondPct: 0, Names: MemNames, MinOps: 10, MaxOps: 40},
@@ -198,7 +199,7 @@ func (g *Gen) Program() []core.Op {
 	prog = append(prog, &Op{Kind: "mkbucket", B: "bk"})
 	p := g.P
 	n := p.MinOps + g.R.Intn(p.MaxOps-p.MinOps+1)
-	w := []int{p.Upload, p.Resumable, p.GetMeta, p.GetMedia, p.Patch, p.Delete, p.Compose, p.Copy, p.List, p.ListBad, p.MkBucket, p.RmBucket, p.Reopen, p.GetBucket}
+	w := []int{p.Upload, p.Resumable, p.GetMeta, p.GetMedia, p.Patch, p.Delete, p.Compose, p.Copy, p.List, p.ListBad, p.MkBucket, p.RmBucket, p.Reopen, p.GetBucket, p.Plant}
 	for i := 0; i < n; i++ {
 		b, nm := g.bucket(), g.name()
 		switch g.R.Weighted(w) {
@@ -281,6 +282,9 @@ func (g *Gen) Program() []core.Op {
 			g.sessions = 0
 		case 13:
 			prog = append(prog, &Op{Kind: "getbucket", B: b})
+		case 14:
+			prog = append(prog, &Op{Kind: "plant", B: "bk", N: nm, Content: core.Pick(g.R, [][]byte{[]byte("planted"), {}, {0, 255, 7}})})
+			g.readBack(&prog, "bk", nm)
 		}
 	}
 	// final dump
